@@ -129,7 +129,11 @@ BlockViol(d, b, tree, bp, who, ln) ==
     LET tps == bp.tps
         h   == HintsOf(bp)
         cntOK == Len(d.qrs) = Len(b.qrs) /\ Len(d.mms) = Len(b.mms) /\ Len(d.aecs) = Len(b.aecs) /\ d.bpi = b.bpi
-        extraQ == {i \in 1..Len(d.qrs) : ~(DOMAIN d.qrs[i] \subseteq DOMAIN b.qrs[i])}
+        \* a member the hints exclude: of the query/response itself, or (ttl, rdata) of a resource record in one of its sections
+        ExtraRR(dq, bq) == \E f \in (RRLists \cap DOMAIN dq) \cap DOMAIN bq :
+                              /\ Len(dq[f]) = Len(bq[f])
+                              /\ \E j \in 1..Len(dq[f]) : ~(DOMAIN dq[f][j] \subseteq DOMAIN bq[f][j])
+        extraQ == {i \in 1..Len(d.qrs) : ~(DOMAIN d.qrs[i] \subseteq DOMAIN b.qrs[i]) \/ ExtraRR(d.qrs[i], b.qrs[i])}
         badQ == {i \in 1..Len(d.qrs) : d.qrs[i] # b.qrs[i]}
         badM == {i \in 1..Len(d.mms) : d.mms[i] # b.mms[i]}
         aecOK == {d.aecs[i] : i \in 1..Len(d.aecs)} = AecSet(b)
@@ -139,7 +143,7 @@ BlockViol(d, b, tree, bp, who, ln) ==
           <<[l |-> ln, prop |-> "C01,C12,C13", what |-> who \o ": block holds a different number of records (or another parameter index) than were buffered into it",
              got |-> <<Len(d.qrs), Len(d.aecs), Len(d.mms), d.bpi>>, want |-> <<Len(b.qrs), Len(b.aecs), Len(b.mms), b.bpi>>]>>
        ELSE (IF extraQ # {} THEN
-               <<[l |-> ln, prop |-> "C04,C01", what |-> who \o ": a query/response carries a member its storage hint excludes",
+               <<[l |-> ln, prop |-> "C04,C01", what |-> who \o ": a query/response (or a resource record of one of its sections) carries a member its storage hint excludes",
                   got |-> DOMAIN d.qrs[CHOOSE i \in extraQ : TRUE], want |-> DOMAIN b.qrs[CHOOSE i \in extraQ : TRUE]]>>
              ELSE IF badQ # {} THEN
                <<[l |-> ln, prop |-> "C01,C13,C17", what |-> who \o ": query/response differs from the record buffered",
